@@ -77,6 +77,11 @@ class Src:
         cs = [cumsum0(c) for c in self.chunks]
         return self.whole[tuple(slice(c[i], c[i + 1]) for c, i in zip(cs, idx))]
 
+    def freeze_chunks(self):
+        # store pins its sources' layout; the stand-in's layout cannot drift (store_over_regridded_source decides the pin on
+        # real nodes)
+        return self
+
 
 class Blocks:
     """result of the map_blocks stub: per-block return values"""
